@@ -230,7 +230,7 @@ STACKS = [
     S('mortonb_s2_f4', ['mortonb:s2', 'array:f4'], 'T', family='N2M4f'),
     S('mortonb_u2_f2', ['mortonb:u2', 'array:f2'], 'T'),
     S('nn_mortonb_s3_f3', ['nn', 'mortonb:s3', 'array:f3'], 'T', thr=True),
-    S('aff_nn_strided_s2_f2', ['affine', 'nn', 'strided:s2', 'array:f2'], 'T', family='WN2M2f'),
+    S('aff_nn_strided_s2_f2', ['affine', 'nn', 'strided:s2', 'array:f2'], family='WN2M2f'),  # quick tier: the only 2-D float affine there (sizeof(affine<2, float>) is not a multiple of 16)
     S('aff_lin_hilbert_s2_f2', ['affine', 'lin', 'hilbert:s2', 'array:f2'], 'T', family='WN2M2f', thr=True),
     S('aff_lin_mortonb_s2_f2', ['affine', 'lin', 'mortonb:s2', 'array:f2'], 'T', family='WN2M2f'),
     S('shuffle10_mortonb_s2_f2', ['shuffle:10', 'mortonb:s2', 'array:f2'], 'T', thr=True),
